@@ -1113,6 +1113,27 @@ def _np_zeros(fill):
     return model
 
 
+def _np_like(fill):
+    """zeros_like / ones_like / empty_like: shape and dtype of the prototype unless given"""
+    def model(interp, args, kwargs):
+        proto = args[0] if type(args[0]) is NDArr else to_ndarr(interp, args[0])
+        shape = kwargs.get("shape", proto.shape)
+        if isinstance(shape, (int, np.integer)):
+            shape = (int(shape),)
+        if has_sym_deep(list(shape)):
+            raise Unsupported("np.*_like with symbolic shape")
+        dtype = kwargs.get("dtype", args[1] if len(args) > 1 else None)
+        kind = _dtype_kind(dtype) if dtype is not None else proto.dtype
+        f = fill if kind == "f" else (int(fill) if kind == "i" else bool(fill))
+
+        def build(sh):
+            if not sh:
+                return f
+            return [build(sh[1:]) for _ in range(sh[0])]
+        return NDArr(build(tuple(shape)), tuple(shape), kind)
+    return model
+
+
 def _np_hstack(interp, args, kwargs):
     arrs = [x if type(x) is NDArr else to_ndarr(interp, x) for x in interp.iterate(args[0])]
     kind = _join_kind({a.dtype for a in arrs})
@@ -1513,6 +1534,9 @@ def build_models():
         math.isclose: lambda it, a, k: _np_isclose(it, a, {"rtol": k.get("rel_tol", 1e-09), "atol": k.get("abs_tol", 0.0)}),
         np.array: _np_array,
         np.asarray: _np_array,
+        np.zeros_like: _np_like(0.0),
+        np.ones_like: _np_like(1.0),
+        np.empty_like: _np_like(0.0),
         np.zeros: _np_zeros(0.0),
         np.ones: _np_zeros(1.0),
         np.empty: _np_empty,
